@@ -172,6 +172,7 @@ def parseAc (s : String) : Option (List Charset × Bool) :=
   else if s == "latin1" then some ([.latin1], false)
   else if s == "ascii" then some ([.ascii, .latin1], false)
   else if s == "none" then some ([], false)
+  else if s == "l1u8" then some ([.latin1, .utf8], false)
   else none
 
 def parsePair (p : String) : Option (Nat × Nat) :=
